@@ -414,6 +414,7 @@ func PublishContext[T any](bus *EventBus, ctx context.Context, event T) {
 	handlersCopy := make([]*internalHandler, len(handlers))
 	copy(handlersCopy, handlers)
 	shard.mu.RUnlock()
+	verifYield("publish.snapshot", nil)
 
 	// Execute handlers without holding the lock
 	var wg sync.WaitGroup
@@ -444,6 +445,7 @@ func PublishContext[T any](bus *EventBus, ctx context.Context, event T) {
 			}
 			// Mark for removal after execution
 			onceHandlersToRemove = append(onceHandlersToRemove, h)
+			verifYield("publish.claimed", h)
 		}
 
 		if h.async {
@@ -456,6 +458,8 @@ func PublishContext[T any](bus *EventBus, ctx context.Context, event T) {
 			go func(handler *internalHandler) {
 				defer wg.Done()
 				defer bus.wg.done()
+				defer verifYield("async.end", handler)
+				verifYield("async.start", handler)
 
 				// Sequential async handlers process events in publish order
 				if handler.sequential {
@@ -484,6 +488,7 @@ func PublishContext[T any](bus *EventBus, ctx context.Context, event T) {
 
 	// Remove once handlers that were executed
 	if len(onceHandlersToRemove) > 0 {
+		verifYield("publish.retire", nil)
 		shard.mu.Lock()
 		handlers := shard.handlers[eventType]
 		for _, onceHandler := range onceHandlersToRemove {
@@ -496,6 +501,7 @@ func PublishContext[T any](bus *EventBus, ctx context.Context, event T) {
 		}
 		shard.handlers[eventType] = handlers
 		shard.mu.Unlock()
+		verifYield("publish.retired", nil)
 	}
 
 	// For async handlers, we don't wait inline to avoid blocking
